@@ -121,3 +121,17 @@ package keeper
 //@   letpost si1 = k.lend.GetAssetStatsByPoolIDAndAssetID(ctx, l0.PoolID, l0.AssetID).0
 //@   ensures #c08-seized-principal-leaves-its-own-total: result == nil && sof0 ==> so1.TotalBorrowed == so0.TotalBorrowed - ite(B.IsStableBorrow, 0, B.AmountOut.Amount) && so1.TotalStableBorrowed == so0.TotalStableBorrowed - ite(B.IsStableBorrow, B.AmountOut.Amount, 0)
 //@   ensures #c08-seized-collateral-leaves-lend-total: result == nil && sif0 ==> si1.TotalLend == si0.TotalLend - B.AmountIn.Amount
+
+// Top-up of an under-collateralised auction out of the app reserve (C10): whenever the recorded reserve covers the amount
+// (boundary included), exactly that amount of coins moves from the liquidation module account into auction custody and the
+// recorded reserve is lowered by the same amount - coins and book move together.
+//@ func (k Keeper) WithdrawAppReserveFundsFn
+//@   property C10
+//@   let r0 = k.GetAppReserveFunds(ctx, appId, assetId).0
+//@   let lm = modaddr("liquidationsV2")
+//@   let am = modaddr("auctionsV2")
+//@   let d = tokenQuantity.Denom
+//@   requires #reserve-keyed: k.GetAppReserveFunds(ctx, appId, assetId).1 ==> r0.AppId == appId && r0.AssetId == assetId
+//@   letpost r1 = k.GetAppReserveFunds(ctx, appId, assetId).0
+//@   ensures #c10-reserve-top-up-moves-coins-with-book: result == nil && r0.TokenQuantity.Amount >= tokenQuantity.Amount && tokenQuantity.Amount > 0 ==> bal(lm, d) == old(bal(lm, d)) - tokenQuantity.Amount && bal(am, d) == old(bal(am, d)) + tokenQuantity.Amount && r1.TokenQuantity.Amount == r0.TokenQuantity.Amount - tokenQuantity.Amount
+//@   ensures #c10-reserve-book-lowered-by-the-request: result == nil ==> r1.TokenQuantity.Amount == r0.TokenQuantity.Amount - tokenQuantity.Amount
